@@ -8,6 +8,7 @@ import (
 
 	"github.com/ipld/go-ipld-prime"
 	cidlink "github.com/ipld/go-ipld-prime/linking/cid"
+	"github.com/multiformats/go-multiaddr"
 )
 
 // vRT is the harness network: an http.RoundTripper answering from a function.
@@ -55,4 +56,10 @@ func vURL(s string) url.URL {
 	u, err := url.Parse(s)
 	verif_Assume(err == nil)
 	return *u
+}
+
+func vMA(s string) multiaddr.Multiaddr {
+	m, err := multiaddr.NewMultiaddr(s)
+	verif_Assume(err == nil)
+	return m
 }
